@@ -1,3 +1,4 @@
 import Audit.Tool
 import Uds.Props.C14
+import Uds.Props.C14Reuse
 #audit Uds.Props.C14
